@@ -2,7 +2,7 @@
    Only ExtrOcamlBasic is used: nat, positive, N, Z stay the extracted inductives. *)
 Require Extraction.
 Require Import ExtrOcamlBasic.
-From LogV Require Import Base.Bytes Base.Utf8 Base.JsonStr Model.Tag Model.Escape Model.Retention Model.Level Model.Deliver Model.Route Model.Field Model.Encoder Model.Layout Model.Expr Model.Async Model.Entry Model.RawWrite Base.Json Proofs.JsonProofs Proofs.EncoderProofs Proofs.LayoutProofs Proofs.TextProofs.
+From LogV Require Import Base.Bytes Base.Utf8 Base.JsonStr Model.Tag Model.Escape Model.Retention Model.Level Model.Deliver Model.Route Model.Field Model.Encoder Model.Layout Model.Expr Model.Async Model.Entry Model.RawWrite Model.Lifecycle Model.Rolling Model.Sink Base.Json Proofs.JsonProofs Proofs.EncoderProofs Proofs.LayoutProofs Proofs.TextProofs.
 Extraction Language OCaml.
 Extraction "model.ml" Z.add Z.mul Z.opp Z.of_N Z.to_N N.add N.of_nat N.to_nat
   is_valid_tag build_tag register_tag all_tags
@@ -15,4 +15,6 @@ Extraction "model.ml" Z.add Z.mul Z.opp Z.of_N Z.to_N N.add N.of_nat N.to_nat
   parse
   q_init aseq_step submit
   log_call enable
-  rrun drain_all write_raw_refs.
+  rrun drain_all write_raw_refs
+  lrun l_start
+  f_init fstep frun.
